@@ -40,4 +40,9 @@ CLAIMS = {
         "note": "Trusted: typing caches parameterised generic aliases (same parameters, same object) — either way both branches then build the plain composite. The reflected spelling n*x is only checked for classes that define __rmul__ (the property speaks of a*n). Exhaustive within the stated tree bound only.",
         "technique": "finite abstract interpretation of dispatch code over kinds (checker-owned interpreter) + exhaustive bounded tree enumeration",
     },
+    "C03": {
+        "text": "Path-sensitive effect/typestate analysis over an abstract heap: atoms components (positions, momenta, other per-atom arrays with atom count/order, cell, constraints), calculator cache, context and move slots carry symbolic version terms (with an algebra for insert/delete/re-insert and cell rescaling; aliases of live storage distinguished from copies). quansino's own step loop, move bodies, context save/revert/reset chains and driver overrides are interpreted over it for every discovered driver × move-table scenario (incl. composites built like m*2, a+b, mixed tables); undecidable conditions branch both ways, retry loops unroll 0/1/2 times; every path is explored. After every rejected or failed trial each component must carry its pre-trial version and all bookkeeping/pre-selections must be clean. Universal over histories because it is a per-trial inductive step checked on all abstract paths.",
+        "note": "Trusted: ASE setter/getter/delete semantics (table validated against the installed ASE source each run); reinsert_atoms inverts deletion (C19); atoms appended in the current trial are unconstrained. Not decided: bit equality of contents beyond 'restored from a copy of the pre-trial value'; user check_move callables that mutate atoms. Constraint loss on rejected deletion is a listed known finding.",
+        "technique": "path-sensitive effect/typestate analysis (abstract heap with version terms, alias vs copy), exhaustive over abstract paths of each scenario",
+    },
 }
